@@ -789,4 +789,51 @@ def rule_l(ctx: Ctx) -> None:
     caller_mode_reports(ctx, 'C11.l')
 
 
-RULES = [rule_a, rule_b, rule_c, rule_d, rule_e, rule_f, rule_g, rule_h, rule_i, rule_j, rule_k, rule_l]
+# what opening a URL given by a document raises besides URLError (reviewed from urllib / http.client): a malformed authority or port ->
+# http.client.InvalidURL (an HTTPException), an incomplete data: URL or an invalid IPv6 literal -> ValueError
+OPENER_RAISES = ('URLError', 'ValueError', 'HTTPException')
+
+
+def rule_m(ctx: Ctx) -> None:
+    """Locations come from documents (schemaLocation hints, include/import): opening or normalising a malformed one ends in a library
+    error that the callers' `except OSError` treats as an unusable location - never in ValueError / InvalidURL out of validation."""
+    rule = 'C11.m'
+    n = 0
+    for f in ctx.idx.iter_functions('resources'):
+        if isinstance(f.node, ast.Lambda):
+            continue
+        parents = None
+        for c in calls(f.node):
+            d = text(c.func)
+            if not (d == 'urlopen' or d.endswith('_opener.open') or d.endswith('opener.open')):
+                continue
+            if f.qualname == 'xmlschema.resources.fetchers.fetch_resource':
+                continue     # public probe documented to raise what urlopen raises; it has no internal caller (C12.a checks that)
+            parents = parents or enclosing_map(f.node)
+            hs = site_handlers(f, c, parents)
+            names = handler_classes(ctx, f, hs)
+            for exc in OPENER_RAISES:
+                n += 1
+                chain = {'URLError': {'URLError', 'OSError', 'Exception', 'BaseException'}, 'ValueError': builtin_exc_chain('ValueError'),
+                         'HTTPException': {'HTTPException', 'Exception', 'BaseException'}}[exc]
+                ok = bool(chain & names)
+                ctx.ob(rule, f'{f.qualname.split(".", 2)[-1]}: {exc} raised by `{d}(…)` is converted into a library error', f.loc(c), ok,
+                       '' if ok else f'{exc} escapes: a location hint such as "urn:o http://[::1]:x/y" (InvalidURL) or "urn:o data:,x" (ValueError) makes iter_errors(…, '
+                       'use_location_hints=True) raise a built-in exception', key=f'{f.qualname}|opener|{d}|{exc}')
+    ctx.floor(rule, 'opener call sites x raise-set', n, 6)
+    # the hint is normalised (urlsplit may raise ValueError) under a handler, or the loop goes on
+    for cq in ('xmlschema.validators.elements.XsdElement', 'xmlschema.validators.elements.Xsd11Element'):
+        f = ctx.idx.cls(cq).methods.get('check_dynamic_context')
+        parents = enclosing_map(f.node)
+        for c in calls(f.node):
+            if text(c.func) != 'normalize_url':
+                continue
+            hs = site_handlers(f, c, parents)
+            ok = covers(ctx, f, handler_classes(ctx, f, hs), 'ValueError')
+            ctx.ob(rule, f'{cq.split(".")[-1]}.check_dynamic_context: a hint that cannot be normalised is skipped', f.loc(c), ok,
+                   '' if ok else 'urlsplit raises ValueError for "http://[::1" and nothing on the way to iter_errors() catches it', key=f'{cq}.check_dynamic_context|normalize')
+    ctx.trusted.append('raise-set of urllib openers on malformed URLs: URLError, ValueError, http.client.HTTPException (reviewed table OPENER_RAISES)')
+    ctx.explain('C11.m: handler coverage of the urlopen / opener.open call sites over the reviewed raise-set; the normalisation of a location hint is under a ValueError handler.')
+
+
+RULES = [rule_a, rule_b, rule_c, rule_d, rule_e, rule_f, rule_g, rule_h, rule_i, rule_j, rule_k, rule_l, rule_m]
